@@ -99,6 +99,7 @@ def make_main(d, name, kind="ekf") -> str:
     pargs = f"dt, {sv}" + (", cal" if Lk else "") + (", u" if Lc else "")
     rargs = f"{sv}" + (", cal" if Lk else "")
     w(' if (op == "layout") {')
+    w('  out << "config.max_dt_sec=" << B(cpp::Config::max_dt_sec) << " config.innovation_filtering=" << B(cpp::Config::innovation_filtering) << " ";')
     w("  { State s; ")
     for i, s in enumerate(Ls):
         w(f"   s.data = State::DataT::Zero(); s.{s}() = 1.0; for (int i = 0; i < {n}; ++i) if (s.data(i, 0) == 1.0) out << \"state.{s}=\" << i << \" \";")
